@@ -389,16 +389,87 @@ def check_user_info(ctx):
             rep.disagreements.append(dict(unit="keys-userinfo", case=dict(env=label), impl=got.decode("latin-1"), model=m))
 
 
+def concurrent_sign(ctx, n=None, only=None):
+    """Two threads sign different tokens at the same time (two devices authenticating at once), control changing hands at every source line
+    of the signer's module: each must get the signature it would get alone.  Module-level state of a signer is what this exercises."""
+    import sys
+    import threading
+    import sched
+    rep = ctx.report
+    total = 1 if only is not None else (n if n is not None else int((6 if ctx.tier == "quick" else 60) * ctx.budget))
+    tmp = tempfile.mkdtemp(prefix="c17c_")
+    try:
+        cdir = os.path.join(os.path.dirname(os.path.dirname(os.path.abspath(__file__))), "corpus", "keys")
+        path = os.path.join(tmp, "k")
+        shutil.copy(os.path.join(cdir, sorted(os.listdir(cdir))[0]), path)
+        from adb_shell.auth import keygen
+        keygen.write_public_keyfile(path, path + ".pub")
+        for k in range(total):
+            for name in ([only["signer"]] if only else SIGNER_NAMES):
+                toks = [bytes.fromhex(t) for t in only["tokens"]] if only else [bytes(ctx.rng.getrandbits(8) for _ in range(20)) for _ in range(2)]
+                shared = only["shared"] if only else ctx.rng.random() < 0.5
+                signers = [load_signer(name, path)] * 2 if shared else [load_signer(name, path), load_signer(name, path)]
+                alone = [as_bytes(signers[i].Sign(toks[i])) for i in range(2)]
+                mod = sys.modules[type(signers[0]).__module__]
+                baton = sched.Baton(ctx.rng, fixed=only.get("order") if only else None)
+                tracer = sched.line_tracer(baton, set(), files=(mod.__file__,))
+                res = [None, None]
+
+                def worker(i):
+                    sys.settrace(tracer)
+                    try:
+                        res[i] = ("ok", as_bytes(signers[i].Sign(toks[i])))
+                    except Exception as exc:  # noqa
+                        res[i] = ("err", "%s: %s" % (type(exc).__name__, exc))
+                    finally:
+                        sys.settrace(None)
+                threads = baton.spawn([lambda i=i: worker(i) for i in range(2)])
+                try:
+                    baton.drive()
+                except sched.Deadlock as exc:
+                    res = [("err", "deadlock " + str(exc))] * 2
+                for t in threads:
+                    t.join(timeout=2.0)
+                rep.evaluations += 1
+                rep.count("concurrent_sign", name)
+                for i in range(2):
+                    if res[i] != ("ok", alone[i]):
+                        rep.prop_failures.append(dict(case=dict(pem=None, token=None, signer=name, concurrent=dict(signer=name, tokens=[t.hex() for t in toks], shared=bool(shared), order=list(baton.picks))),
+                                                      why="%s: two threads signing at once: thread %d got %s, alone it gets the PKCS#1 signature %s.." % (
+                                                          name, i, (res[i][1][:60] if res[i] and res[i][0] == "err" else "a different signature"), alone[i][:8].hex()),
+                                                      signature=dict(kind="concurrent-sign")))
+                        break
+            if len(rep.prop_failures) > 3:
+                break
+    finally:
+        shutil.rmtree(tmp, ignore_errors=True)
+
+
 def run_keys(ctx, n_fresh, n_seeded, stop_on_failure=False):
     from adb_shell.auth import keygen
     rep = ctx.report
     tmp = tempfile.mkdtemp(prefix="c17_")
     try:
+        # keys kept because of a rare arithmetic shape (Montgomery rr with a zero top byte: about 1 key in 256; small n0inv)
+        cdir = os.path.join(os.path.dirname(os.path.dirname(os.path.abspath(__file__))), "corpus", "keys")
+        for ci, name in enumerate(sorted(os.listdir(cdir)) if os.path.isdir(cdir) else []):
+            path = os.path.join(tmp, "corpus%d" % ci)
+            shutil.copy(os.path.join(cdir, name), path)
+            keygen.write_public_keyfile(path, path + ".pub")
+            check_key(ctx, path, "corpus/" + name, make_tokens(ctx.rng)[:2])
         for i in range(n_fresh + n_seeded):
-            path = os.path.join(tmp, "key%d" % i)
+            # key files are called all sorts of things; the signers look for `<path>.pub` whatever the name
+            path = os.path.join(tmp, ["device%d.key", "adbkey%d", "adbkey%d.pem", "a.b%d.c", "key%d"][i % 5] % i)
             if i < n_fresh:
                 keygen.keygen(path)
                 origin = "keygen()"
+                rep.evaluations += 1
+                if not os.path.exists(path + ".pub"):
+                    rep.prop_failures.append(dict(case=dict(pem=None, token=None, signer=None, keyfile=os.path.basename(path)),
+                                                  why="keygen(%r) did not write %r, the file every signer reads the public key from (directory now holds %r)" % (
+                                                      os.path.basename(path), os.path.basename(path) + ".pub", sorted(os.listdir(tmp))),
+                                                  signature=dict(kind="pubfile-missing")))
+                    continue
             else:
                 kind = "phi" if (i - n_fresh) % 2 == 0 else "lambda"
                 with open(path, "wb") as f:
@@ -428,6 +499,7 @@ def run(ctx):
                 "byte-for-byte with the model and judged by the independent oracle." % (n_fresh, n_seeded))
     check_user_info(ctx)
     run_keys(ctx, n_fresh, n_seeded)
+    concurrent_sign(ctx)
     rep.notes.append("keys from keygen() are not reproducible from the seed (cryptography uses the OS RNG); tokens, seeded keys and bit flips are. "
                      "A failing case carries the private key PEM, token and signer name, so `--replay` is exact.")
 
@@ -435,6 +507,8 @@ def run(ctx):
 def search(ctx, disagreements, proofs):
     before = len(ctx.report.prop_failures)
     run_keys(ctx, max(1, int(2 * ctx.budget)), max(1, int(1 * ctx.budget)), stop_on_failure=True)
+    if len(ctx.report.prop_failures) == before:
+        concurrent_sign(ctx)
     fails = ctx.report.prop_failures[before:]
     return fails[0] if fails else None
 
@@ -444,6 +518,20 @@ def _replay_case(ctx, case):
     from adb_shell.auth import keygen
     sub = type(ctx)(ctx.prop, ctx.tier, ctx.seed)
     sub.driver = ctx.driver
+    if case.get("concurrent"):
+        concurrent_sign(sub, only=case["concurrent"])
+        return sub.report.prop_failures, sub.report.disagreements
+    if case.get("keyfile"):
+        tmp = tempfile.mkdtemp(prefix="c17r_")
+        try:
+            path = os.path.join(tmp, case["keyfile"])
+            keygen.keygen(path)
+            if not os.path.exists(path + ".pub"):
+                sub.report.prop_failures.append(dict(case=case, why="keygen(%r) did not write %r (directory holds %r)" % (case["keyfile"], case["keyfile"] + ".pub", sorted(os.listdir(tmp))),
+                                                     signature=dict(kind="pubfile-missing")))
+        finally:
+            shutil.rmtree(tmp, ignore_errors=True)
+        return sub.report.prop_failures, sub.report.disagreements
     if not case.get("pem"):
         check_user_info(sub)
         return sub.report.prop_failures, sub.report.disagreements
